@@ -1696,6 +1696,13 @@ func (mgr *Manager) convertStreamJob(allConverters []*converters.CachedConverter
 				if tag.features.MainFeatures&query.FeatureFilterData == 0 && tag.features.SubQueryFeatures&query.FeatureFilterData == 0 {
 					continue
 				}
+				if tag.features.SubQueryFeatures&query.FeatureFilterData != 0 {
+					// the converted data is searched by a sub-query: the result may change for any stream
+					if !allStreamIDs[i].IsZero() {
+						tag.Uncertain = mgr.allStreams
+					}
+					continue
+				}
 				// the mask is shared with views and a running tagging job, don't modify it in place
 				tag.Uncertain = tag.Uncertain.Copy()
 				tag.Uncertain.Or(*allStreamIDs[i])
@@ -2035,6 +2042,11 @@ func (mgr *Manager) invalidateTagsAfterConversion(streamID uint64) {
 	converted.Set(uint(streamID))
 	for _, tag := range mgr.tags {
 		if tag.features.MainFeatures&query.FeatureFilterData == 0 && tag.features.SubQueryFeatures&query.FeatureFilterData == 0 {
+			continue
+		}
+		if tag.features.SubQueryFeatures&query.FeatureFilterData != 0 {
+			// the converted data is searched by a sub-query: the result may change for any stream
+			tag.Uncertain = mgr.allStreams
 			continue
 		}
 		// the mask is shared with views and a running tagging job, don't modify it in place
